@@ -263,6 +263,21 @@ Definition cv_call (ext : bool) (s : cv) (c : call) : result (cv * list call) :=
       Err E_LOGIC   (* AbstractProgram's default implementation throws std::logic_error *)
   end.
 
+(* a whole call sequence: final state and everything emitted; the first failing call ends the run *)
+Fixpoint cv_run (ext : bool) (s : cv) (p : list call) : result (cv * list call) :=
+  match p with
+  | [] => Ok (s, [])
+  | c :: r =>
+      match cv_call ext s c with
+      | Err e => Err e
+      | Ok (s1, o1) =>
+          match cv_run ext s1 r with
+          | Err e => Err e
+          | Ok (s2, o2) => Ok (s2, o1 ++ o2)
+          end
+      end
+  end.
+
 (* ---- SmodelsOutput(os, ext, false_ = 0) as an acceptance automaton: None = POTASSCO_REQUIRE fails ---- *)
 Record sw := mkSw { sec : Z; fhead : bool }.
 Definition sw0 : sw := mkSw 0 false.
